@@ -38,7 +38,8 @@ FLOORS = {
               "trees-compared": 15000, "roundtrips": 15000, "unregistered-probes": 5000,
               "roundtrips-of-accepted-unspecified-uses": 1000},
     "thorough": {"definitions": 8000, "uses:ACCEPT": 150000, "uses:REJECT": 150000,
-                 "trees-compared": 150000, "roundtrips": 150000, "unregistered-probes": 16000},
+                 "trees-compared": 150000, "roundtrips": 150000, "unregistered-probes": 16000,
+                 "roundtrips-of-accepted-unspecified-uses": 8000},
 }
 SHARD_TIMEOUT = {"quick": 600, "thorough": 3000}
 
